@@ -1286,6 +1286,7 @@ func (h *NtfnsHandler) resume(log bool, msg string, fields logging.LogFormat) {
 	case h.sigResume <- struct{}{}:
 	case <-h.quit:
 	}
+	verifGate(h, "worker.resumed")
 	if log {
 		logging.VPrint(logging.INFO, msg, fields)
 	}
